@@ -1,6 +1,6 @@
 """Registration of the claimed properties (see DESIGN.md section 4)."""
 
-from .registry import register, SeqPart, ConcPart, ConcPairsPart, ConcCrashPart, SingleSweepPart, SingleRandomPart
+from .registry import register, SeqPart, SeqEnumPart, ConcPart, ConcPairsPart, ConcCrashPart, SingleSweepPart, SingleRandomPart
 
 COMMON_ASSUME = [
     "the kernel file system (tmpfs sandbox) and CPython's os/io/shutil/tempfile/pathlib are correct",
@@ -31,17 +31,19 @@ register("C03", "exploration",
          COMMON_ASSUME + ["either documented already-exists class (HashStoreRefsAlreadyExists / "
                           "PidRefsAlreadyExistsError) counts as the rejection"],
          30, 420,
-         [SeqPart("C03", focus=["rebind-rejected"])])
+         [SeqEnumPart("C03", "obj", "seq-enum", focus=["rebind-rejected"]),
+          SeqPart("C03", focus=["rebind-rejected"], weight=3.0)])
 
 register("C04", "exploration",
          SEQ_RULE + "; focus = a successful delete_object or a delete_if_invalid_object in a history with shared content",
          COMMON_ASSUME, 30, 420,
-         [SeqPart("C04", focus=["delete-ok", "div"])])
+         [SeqEnumPart("C04", "obj", "seq-enum", focus=["delete-ok", "div"]),
+          SeqPart("C04", focus=["delete-ok", "div"], weight=3.0)])
 
 register("C05", "exploration",
          SEQ_RULE + "; focus = any reference-changing call (tag/delete/store with pid)",
          COMMON_ASSUME, 30, 420,
-         [SeqPart("C05", focus=["op:tag", "delete-ok", "op:store"])])
+         [SeqEnumPart("C05", "obj", "seq-enum"), SeqPart("C05", focus=["op:tag", "delete-ok", "op:store"], weight=3.0)])
 
 register("C06", "exploration",
          SEQ_RULE + "; focus = a store_object with validation data or a delete_if_invalid_object",
@@ -53,7 +55,7 @@ register("C06", "exploration",
 register("C11", "exploration",
          SEQ_RULE + "; focus = a metadata call",
          COMMON_ASSUME, 30, 420,
-         [SeqPart("C11", focus=["meta"])])
+         [SeqEnumPart("C11", "meta", "seq-enum", focus=["meta"]), SeqPart("C11", focus=["meta"], weight=3.0)])
 
 register("C16", "exploration",
          "three parts: (seq-mp) " + SEQ_RULE + "; every history runs in multiprocessing mode (USE_MULTIPROCESSING=True, simulated "
